@@ -205,7 +205,7 @@ SOUP = [
     "\"", "'", "\"s\"", "url(", "url(x)", "f(", "calc(", "rgb(", "var(", "not(", ":not(", "!", "!important", "#", "#fff", ".", "*", "|", ">", "+", "~", "=",
     "/*", "*/", "<!--", "-->", "\\", "\\41 ", "\\2d ", "\\2d", "\\31 ", "\\0 ", "\\a ", "\\7b ", "\\20 ", "\\3b", "\\10ffff ", "\\110000 ", "\\d800 ", "1", "1px", "50%", "-", "--", "u+0-7f", "é", "\u4e2d", "\U0001f600", "\x01", "\t", "\x0c", "\\\n", "/", "$", "&", "^=",
     "\"}\"", "\"{\"", "'}'", "url(\"}\")", "\";\"", "\\z", "\\)", "\\\"", "**", "var(v,", "var(v, var(w, ", "@variables{v:1}", "@x \"}\";",
-    "\\7d ", "1\\a x", "@variables { /*c*/ a: 1; a: 2 }", "@import \"http://[x\";", "@import url(//[);", "9" * 400 + ".5px", "9" * 5000, "-" + "9" * 330 + "em", "1e999", "0." + "0" * 400 + "1",
+    "\\7d ", "1\\a x", "#1e3\\a", "#abc\\a ", "@CHARSET \"a\";", "@charset\"a\";", "@variables { /*c*/ a: 1; a: 2 }", "@import \"http://[x\";", "@import url(//[);", "9" * 400 + ".5px", "9" * 5000, "-" + "9" * 330 + "em", "1e999", "0." + "0" * 400 + "1",
     "@charset \"rot13\";", "@charset \"idna\";", "@charset \"css\";", "font-family:", "voice-family:", "font:", "content:", "é é ", "a a a ", "\"a\" \"b\" ",
 ]
 
